@@ -462,11 +462,15 @@ class Pdb(Adapter):
     # ---- S ---------------------------------------------------------------------------------
     def free_spec(self, rng, natom, i):
         return {"seed": rng.getrandbits(48), "natom": natom, "scale": rng.choice([0.5, 5.0, 50.0, 900.0]),
-                "nbond": pick_nbond(rng, natom, i) if natom <= 1001 else 5, "optional": rng.random() < 0.6}
+                "nbond": pick_nbond(rng, natom, i) if natom <= 1001 else 5, "optional": rng.random() < 0.6,
+                # multi-line TITLE / COMPND records with continuation numbers 2..9, 10, 11, ... (first case always)
+                "multiline": [0, 12, 2, 9, 10, 11, 30, 101][i % 8] if i % 3 == 0 else 0}
 
     def free_class(self, spec):
         n = spec["natom"]
-        return f"natom={n if n in (*F.SIZE_CLASSES_THOROUGH, 99999) else 'rand'}/optional={int(spec['optional'])}/nbond={'0' if not spec['nbond'] else 'n'}"
+        ml = spec.get("multiline", 0)
+        return (f"natom={n if n in (*F.SIZE_CLASSES_THOROUGH, 99999) else 'rand'}/optional={int(spec['optional'])}"
+                f"/nbond={'0' if not spec['nbond'] else 'n'}/title-lines={'1' if not ml else '<10' if ml < 10 else '>=10'}")
 
     def free_build(self, spec):
         import random
@@ -490,6 +494,11 @@ class Pdb(Adapter):
         b = rand_bonds(rng, natom, spec["nbond"])
         if b:
             kw["bonds"] = np.array(b, int)
+        ml = spec.get("multiline", 0)
+        if ml:
+            kw["title"] = "\n".join(F.rand_title(rng, allow_empty=False)[:60].strip() or "t" for _ in range(ml))
+            kw.setdefault("extra", {})["compound"] = "\n".join(
+                F.rand_title(rng, allow_empty=False)[:60].strip() or "c" for _ in range(ml + 1))
         return IOData(**kw)
 
     def compare(self, x, y):
@@ -525,6 +534,8 @@ class Pdb(Adapter):
             bad.append(("bondtypes", "reloaded bond type is not 'un'"))
         if (x.title or "Created with IOData") != y.title:
             bad.append(("title", f"{x.title!r} -> {y.title!r}"))
+        if x.extra.get("compound") != y.extra.get("compound"):
+            bad.append(("compound", f"{x.extra.get('compound')!r} -> {y.extra.get('compound')!r}"[:200]))
         return bad
 
     def known_cause(self, x):
